@@ -15,11 +15,11 @@ Intensity(f, s, t, c) == IF f.pol = "Coherence" THEN CalVal(f, s, t, 1, c) + Cal
 FileChan(f, c) == IF f.ascending THEN f.C - c + 1 ELSE c
 (* the whole file as a flat value sequence, time-major, channels in descending frequency *)
 WholeVals(f) ==
-  [k \in 1..(f.S * f.nsblk * f.C) |->
+  [k \in 1..(f.nstot * f.C) |->
      LET t == (k - 1) \div f.C
          c == ((k - 1) % f.C) + 1
      IN Intensity(f, (t \div f.nsblk) + 1, (t % f.nsblk) + 1, FileChan(f, c))]
-NSamp(f) == f.S * f.nsblk
+NSamp(f) == f.nstot          \* NSTOT: the valid samples; the last row may be only partly filled (nstot <= S * nsblk)
 
 (* code-shaped read_block(start, n): which table rows are read and which samples of them are kept.
    Variant "pinned": the number of rows is computed from n alone. *)
